@@ -32,6 +32,7 @@ from apischema.objects.visitor import SerializationObjectVisitor
 from apischema.ordering import Ordering, sort_by_order
 from apischema.recursion import RecursiveConversionsVisitor
 from apischema.serialization.methods import (
+    AbstractCollectionAlternative,
     AnyFallback,
     AnyMethod,
     BaseField,
@@ -490,7 +491,15 @@ class SerializationMethodVisitor(
                     alt_method = IdentityMethod()
                 if isinstance(alt_method, (TupleMethod, TupleCheckOnlyMethod)):
                     alt_method = CheckedTupleMethod(alt_method.nb_elts, method)
-                alt = UnionAlternative(expected_class(tp), alt_method)
+                cls = expected_class(tp)
+                alt_cls = UnionAlternative
+                if (
+                    issubclass(cls, collections.abc.Collection)
+                    and not issubclass(cls, (str, bytes))
+                    and (issubclass(str, cls) or issubclass(bytes, cls))
+                ):
+                    alt_cls = AbstractCollectionAlternative
+                alt = alt_cls(cls, alt_method)
                 alternatives.append((method, alt))
         if not alternatives:
             raise Unsupported(Union[tuple(types)])
